@@ -1,7 +1,7 @@
 ------------------------------- MODULE Pairing -------------------------------
 (* The R-ate pairing of SM9, e: G1 x G2 -> GT, transcribed from the definition    *)
-(* of GM/T 0044.1-2016 (annex A.? "R-ate pairing on BN curves", Miller's           *)
-(* algorithm; parameters of 0044.5 clause 4):                                      *)
+(* of GM/T 0044.1-2016 (annex on pairings: Miller's algorithm and the R-ate         *)
+(* pairing on BN curves; curve parameters of GM/T 0044.5):                          *)
 (*   input  P in E(F_p)[N], Q in E'(F_p^2)[N];  a = 6t + 2 = sum a_i 2^i            *)
 (*   T := Q, f := 1                                                                  *)
 (*   for i = L-2 .. 0:  f := f^2 g_{T,T}(P), T := [2]T;                              *)
@@ -30,9 +30,8 @@ LOCAL INSTANCE SequencesExt
 (* ------------------------------------------------------------ parameters *)
 BnT == Num("600000000058f98a")                              \* the BN parameter t of GM/T 0044.5
 LoopA == BN!Add(BN!Mul(<<6>>, BnT), <<2>>)                     \* a = 6t + 2
-Pow(b, k) == IF k = 0 THEN <<1>> ELSE LET RECURSIVE F(_)
-                                          F(i) == IF i = 1 THEN b ELSE BN!Mul(F(i - 1), b)
-                                      IN F(k)
+RECURSIVE Pow(_, _)                                          \* b^k, k a small TLC integer
+Pow(b, k) == IF k = 0 THEN <<1>> ELSE BN!Mul(Pow(b, k - 1), b)
 (* p = 36t^4 + 36t^3 + 24t^2 + 6t + 1,  N = 36t^4 + 36t^3 + 18t^2 + 6t + 1 *)
 BnP(t) == BN!Add(BN!Add(BN!Add(BN!Mul(<<36>>, Pow(t, 4)), BN!Mul(<<36>>, Pow(t, 3))), BN!Add(BN!Mul(<<24>>, Pow(t, 2)), BN!Mul(<<6>>, t))), <<1>>)
 BnN(t) == BN!Add(BN!Add(BN!Add(BN!Mul(<<36>>, Pow(t, 4)), BN!Mul(<<36>>, Pow(t, 3))), BN!Add(BN!Mul(<<18>>, Pow(t, 2)), BN!Mul(<<6>>, t))), <<1>>)
@@ -41,9 +40,9 @@ HardExp == BN!Div(BN!Add(BN!Sub(Pow(P, 4), Pow(P, 2)), <<1>>), N)   \* (p^4 - p^
 
 (* ------------------------------------------------------------ psi and the Frobenius on the twist *)
 UInv == F2Inv(F2U)                                                      \* 1/u
-WInv(k) == F12Exp(<<F2Zero, F2Zero, F2Zero, F2Zero, F2Zero, UInv>>, BN!FromInt(k))    \* w^-k:  w^-1 = w^5 / u
-WInv2 == WInv(2)
-WInv3 == WInv(3)
+WInv1 == <<F2Zero, F2Zero, F2Zero, F2Zero, F2Zero, UInv>>                 \* w^-1 = w^5 / u   (w w^5 = w^6 = u)
+WInv2 == F12Sqr(WInv1)
+WInv3 == F12Mul(WInv2, WInv1)
 W2 == F12Exp(F12W, <<2>>)
 W3 == F12Exp(F12W, <<3>>)
 Psi(Q) == <<F12Mul(F12OfF2(Q[1]), WInv2), F12Mul(F12OfF2(Q[2]), WInv3)>>            \* E'(F_p^2) -> E(F_p^12), Q # O
